@@ -7,7 +7,7 @@ import threading
 import vlib
 
 # event codes (harness/cmd/c03/main.go, Corr/C03.v)
-MSG, BAN, UNBAN, BLACK, UNBLACK, EXPIRE, DELETE, RATE, CLOSE, OPEN, REKEY, REGISTER, BADJSON, DELANON = range(14)
+MSG, BAN, UNBAN, BLACK, UNBLACK, EXPIRE, DELETE, RATE, CLOSE, OPEN, REKEY, REGISTER, BADJSON, DELANON, CORRUPT = range(15)
 A, B, E = 1, 2, 3          # clients registered by the setup prefix; E's credentials are expired
 UNKNOWN = 9001
 
@@ -33,6 +33,34 @@ def letters(k, with_tunnel):
         out.append(msg(k, A, key=-2, chal=1, tun=tun))             # phase 2, A's key over challenge number 1 (stale / foreign)
         out.append(msg(k, A, key=0, tun=tun))                      # phase 2, garbage
     return out
+
+
+# second world: one client with a good credential (the attacker's own) and one client per kind of unusable stored
+# credential (0 "" | 1 not base64 | 2 base64, undecryptable | 3 sealed under another master key | 4 too short)
+NCRED = 6
+SETUP_CRED = [[REGISTER]] * NCRED + [[CORRUPT, 2 + kind, kind] for kind in range(5)] + [[OPEN, 1, 0], [OPEN, 2, 1]]
+EXOTIC_KEYS = (-3, -4, -5, -6)   # HMAC keyed by "", by the stored string, by the id string, by the legacy plaintext field
+
+
+def cred_letters(k):
+    """phase 1 for every credential state, phase 2 naming every credential state with every kind of key"""
+    out = [msg(k, x) for x in range(1, NCRED + 1)]
+    for y in range(1, NCRED + 1):
+        for key in (-2, 1) + EXOTIC_KEYS:      # the victim's original secret, the attacker's own secret, exotic keys
+            out.append(msg(k, y, key=key))
+    return out
+
+
+def cred_cases(depth_one_conn, depth_two_conns):
+    a1 = cred_letters(1)
+    a12 = a1 + cred_letters(2)
+    for d in range(1, depth_one_conn + 1):
+        for seq in itertools.product(a1, repeat=d):
+            yield case_of(SETUP_CRED + [list(x) for x in seq])
+    for d in range(2, depth_two_conns + 1):
+        for seq in itertools.product(a12, repeat=d):
+            if any(x[1] == 2 for x in seq):
+                yield case_of(SETUP_CRED + [list(x) for x in seq])
 
 
 def case_of(ops, slots=(1, 2), addrs=(0, 1)):
@@ -84,7 +112,7 @@ def random_case(rng, nconn=3, naddr=2, length=None):
             elif kind < 0.9:
                 ops.append(msg(k, x, key=-2, chal=rng.randrange(1, 6), tun=tun))          # some (stale / foreign / future) challenge
             else:
-                ops.append(msg(k, x, key=0, tun=tun))
+                ops.append(msg(k, x, key=rng.choice((0,) + EXOTIC_KEYS), tun=tun))
         elif r < 0.60 and first_connects < 8:
             first_connects += 1
             ncli += 1
@@ -109,10 +137,14 @@ def random_case(rng, nconn=3, naddr=2, length=None):
             if x not in gone:
                 ops.append([DELANON, x])
                 gone.add(x)
-        elif r < 0.90:
+        elif r < 0.88:
             x = rng.choice(live)
             if x not in gone:
                 ops.append([REKEY, x])
+        elif r < 0.90:
+            x = rng.choice(live)
+            if x not in gone:
+                ops.append([CORRUPT, x, rng.randrange(5)])
         elif r < 0.92:
             ops.append([RATE, rng.randrange(2)])
         elif r < 0.95:
@@ -175,6 +207,8 @@ def enc_ev(op, st):
         return [REGISTER]
     if c == OPEN:
         return [OPEN, op[1], op[2]]
+    if c == CORRUPT:
+        return [CORRUPT, op[1], 1 if op[2] == 0 else 0]
     return [c, op[1]]
 
 
@@ -196,7 +230,7 @@ def shrink(binary, case, key):
     for _ in range(60):
         changed = False
         for i in range(len(cur["ops"]) - 1, nset - 1, -1):
-            if cur["ops"][i][0] in (REGISTER, OPEN):
+            if cur["ops"][i][0] in (REGISTER, OPEN, CORRUPT):
                 continue
             t = dict(cur, ops=cur["ops"][:i] + cur["ops"][i + 1:])
             if fails(t):
@@ -246,10 +280,12 @@ def run(ctx, only_cases=None):
     else:
         cases = load_corpus()
         if thorough:
-            ex = list(exhaustive_cases(3, 4))
+            ex = list(exhaustive_cases(3, 4)) + list(cred_cases(3, 2))
             exhaustive = True
         else:
-            ex = list(exhaustive_cases(2, 2))
+            cl1 = cred_letters(1)
+            cred = list(cred_cases(2, 0)) + [case_of(SETUP_CRED + [list(rng.choice(cl1)) for _ in range(3)]) for _ in range(800)]
+            ex = cred + list(exhaustive_cases(2, 2))
             full3 = letters(1, True) + letters(2, True)
             ex += [case_of(SETUP2 + [list(rng.choice(full3)) for _ in range(rng.choice([3, 4, 4, 5]))]) for _ in range(2500)]
         n_ex = len(ex)
@@ -312,7 +348,7 @@ def run(ctx, only_cases=None):
     for c in cases:
         for op in c["ops"]:
             kinds[op[0]] = kinds.get(op[0], 0) + 1
-    names = ["msg", "ban", "unban", "blacklist", "unblacklist", "expire", "delete", "rate", "close", "open", "rekey", "register", "badjson", "delete_anonymous"]
+    names = ["msg", "ban", "unban", "blacklist", "unblacklist", "expire", "delete", "rate", "close", "open", "rekey", "register", "badjson", "delete_anonymous", "corrupt_stored_credential"]
     ctx.coverage.update({
         "evaluations": len(cases), "distinct_nontrivial": len(nontrivial),
         "exhaustive": bool(exhaustive),
@@ -320,6 +356,11 @@ def run(ctx, only_cases=None):
                 "thorough: ALL message sequences of length <=3 over the 36-letter alphabet {first-connect, phase-1(A|B|unknown|expired), "
                 "phase-2(valid A|valid B|stale|garbage)} x {control,tunnel} x 2 connections and ALL sequences of length 4 over the 18 "
                 "control-type letters; quick: all of length <=2 + a random sample of length 3-5; plus seeded random histories of 5-16 "
+                "second world (credential states): 1 client with a usable credential + 5 clients whose stored credential is empty / not base64 / "
+                "undecryptable / sealed under another master key / too short; letters = phase-1 for each of the 6, phase-2 naming each of the 6 with "
+                "HMAC keyed by its original secret | the attacker's secret | \"\" | the stored string | the id string | the legacy plaintext field: "
+                "ALL sequences of length <=2 on one connection in quick (every phase-1-for-X / phase-2-for-Y pair of credential states), length <=3 "
+                "and all 2-connection sequences of length 2 in thorough. Random part: seeded histories of 5-16 "
                 "events on 3 connections sharing 2 addresses with ban/blacklist/expire/delete/rekey/rate/close/reopen events and lockout "
                 "scenarios. distinct = distinct event lists; non-trivial = at least one challenge issued or one Success response by the real server.",
         "samples": [{"case": cases[i], "observed": outs[i]["steps"][-1]} for i in (0, len(cases) // 2, len(cases) - 1) if i < len(cases)],
